@@ -526,6 +526,48 @@ pub fn respond(line: &str) -> String {
         ),
         "geo" => resp_geo(&parse_geo(&t[1..10]), t[10].parse().unwrap()),
         "hdr" => crate::hdr::resp_hdr(&unhex(t[1])),
+        "uset" => resp_uset(t[1], t[2]),
         _ => format!("unknown-request {}", t[0]),
     }
+}
+
+
+/// the used-cluster set of the leak check: `uset n,n,.. q,q,..`
+fn resp_uset(nums: &str, qs: &str) -> String {
+    let parse = |s: &str| -> Vec<u64> { s.split(',').filter(|x| !x.is_empty() && *x != "-").map(|x| x.parse().unwrap()).collect() };
+    let (ranges, used) = qcow2_rs::dev::Qcow2Dev::<crate::sim::SimFile>::verif_used_set(&parse(nums), &parse(qs));
+    format!(
+        "uset ranges={} used={}",
+        if ranges.is_empty() { "-".to_string() } else { ranges.iter().map(|(a, b)| format!("{}-{}", a, b)).collect::<Vec<_>>().join(",") },
+        used.iter().map(|b| if *b { '1' } else { '0' }).collect::<String>()
+    )
+}
+
+/// request stream for the used-set differential: distinct inserts, duplicates, ascending
+/// overlapping windows (how compressed clusters are added), the witness of the old defect
+pub fn gen_uset_requests(seed: u64, n: usize) -> Vec<String> {
+    let mut rng = Rng::derive(seed, 16, 0);
+    let mut out = vec!["uset 0,1,2,3,4,1,3 0,1,2,3,4,5".to_string(), "uset - 0,1".to_string()];
+    for _ in 0..n {
+        let span = *rng.pick(&[6u64, 10, 16, 40, 1000]);
+        let len = rng.range(1, 24);
+        let mut nums: Vec<u64> = Vec::new();
+        let base = if rng.chance(1, 8) { (1u64 << 55) - span } else { rng.below(3) * 7 };
+        for _ in 0..len {
+            match rng.below(5) {
+                0 if !nums.is_empty() => nums.push(*rng.pick(&nums)),
+                1 => {
+                    let a = base + rng.below(span);
+                    let k = rng.range(1, 4);
+                    for x in a..a.saturating_add(k) {
+                        nums.push(x);
+                    }
+                }
+                _ => nums.push(base + rng.below(span + 1)),
+            }
+        }
+        let qs: Vec<String> = (0..12).map(|_| (base + rng.below(span + 2)).to_string()).collect();
+        out.push(format!("uset {} {}", nums.iter().map(|x| x.to_string()).collect::<Vec<_>>().join(","), qs.join(",")));
+    }
+    out
 }
